@@ -229,8 +229,102 @@ fn c07_fixed_size_submessages() {
 }
 
 // ------------------------------------------------------------------------------------------
-// DATA
+// DATA / DATA_FRAG
+//
+// Measured (see the ptab entry): ParameterList::try_read_from_bytes does not scale in CBMC as soon
+// as the slice it works on has a symbolic length or a symbolic start offset (8 fully symbolic
+// bytes: 345 s / 5.4 GB; 12 bytes: > 10 GB), and a symbolic inline-QoS flag keeps that code in the
+// formula. The obligations are therefore split:
+//   * inline-QoS flag clear (every such flags octet enumerated concretely): body, body length,
+//     submessage_length and octetsToInlineQos fully symbolic;
+//   * inline-QoS flag set: a family of images whose *control* fields (flags octet, length fields,
+//     sentinel position, slice end) are concrete and enumerated over every branch outcome of the
+//     parser (well-formed with 0..3 parameters, missing sentinel, length not a multiple of 4,
+//     length beyond the end, truncated header, empty region), everything else symbolic.
 // ------------------------------------------------------------------------------------------
+
+/// Submessage header with a CONCRETE flags octet, symbolic id and symbolic submessage_length.
+fn header_with_flags(flags: u8) -> SubmessageHeaderRead {
+    let id: u8 = kani::any();
+    let l: [u8; 2] = kani::any();
+    let hb = [id, flags, l[0], l[1]];
+    let mut h = &hb[..];
+    match SubmessageHeaderRead::try_read_from_bytes(&mut h) {
+        Ok(h) => h,
+        Err(_) => {
+            kani::assume(false);
+            unreachable!()
+        }
+    }
+}
+
+/// Submessage header with concrete flags octet and concrete submessage_length, symbolic id.
+fn header_conc(flags: u8, len: u16) -> SubmessageHeaderRead {
+    let id: u8 = kani::any();
+    let l = if flags & 1 == 1 { len.to_le_bytes() } else { len.to_be_bytes() };
+    let hb = [id, flags, l[0], l[1]];
+    let mut h = &hb[..];
+    match SubmessageHeaderRead::try_read_from_bytes(&mut h) {
+        Ok(h) => h,
+        Err(_) => {
+            kani::assume(false);
+            unreachable!()
+        }
+    }
+}
+
+fn put_u16(b: &mut [u8], at: usize, v: u16, le: bool) {
+    let x = if le { v.to_le_bytes() } else { v.to_be_bytes() };
+    b[at] = x[0];
+    b[at + 1] = x[1];
+}
+
+/// One member of the inline-QoS image family: value lengths of the parameters, whether a
+/// sentinel follows them, the end of the submessage relative to the start of the inline-QoS
+/// region, and the expected verdict (Some(number of bytes after the list) = decodes).
+struct QosCase {
+    lengths: &'static [u16],
+    sentinel: bool,
+    end: usize,
+    payload: Option<usize>,
+}
+
+const QOS_CASES: [QosCase; 13] = [
+    QosCase { lengths: &[], sentinel: true, end: 4, payload: Some(0) },
+    QosCase { lengths: &[], sentinel: true, end: 12, payload: Some(8) },
+    QosCase { lengths: &[0], sentinel: true, end: 10, payload: Some(2) },
+    QosCase { lengths: &[4], sentinel: true, end: 16, payload: Some(4) },
+    QosCase { lengths: &[8], sentinel: true, end: 16, payload: Some(0) },
+    QosCase { lengths: &[4, 4], sentinel: true, end: 24, payload: Some(4) },
+    QosCase { lengths: &[0, 0, 0], sentinel: true, end: 16, payload: Some(0) },
+    QosCase { lengths: &[4], sentinel: false, end: 8, payload: None }, // no sentinel before the end
+    QosCase { lengths: &[3], sentinel: false, end: 24, payload: None }, // length not a multiple of 4
+    QosCase { lengths: &[0xfffc], sentinel: false, end: 24, payload: None }, // length beyond the end
+    QosCase { lengths: &[8], sentinel: false, end: 8, payload: None }, // value truncated
+    QosCase { lengths: &[], sentinel: false, end: 2, payload: None }, // truncated parameter header
+    QosCase { lengths: &[], sentinel: false, end: 0, payload: None }, // empty region
+];
+
+/// Parameter ids used by the family (the decoder only distinguishes the sentinel from the rest;
+/// a symbolic id keeps the sentinel branch alive at every position and is not tractable).
+const PIDS: [i16; 4] = [0x0070, 0x0071, -1, 0x7fff];
+
+/// Lays the case out in `b` from `start`: parameter ids and lengths concrete, values symbolic,
+/// then (if requested) the sentinel with a symbolic length field.
+fn lay_out_qos(b: &mut [u8], start: usize, le: bool, c: &QosCase) {
+    let mut off = start;
+    for &l in c.lengths {
+        if off + 4 > b.len() {
+            break;
+        }
+        put_u16(b, off, PIDS[(off / 4) % 4] as u16, le);
+        put_u16(b, off + 2, l, le);
+        off += 4 + l as usize;
+    }
+    if c.sentinel && off + 4 <= b.len() {
+        put_u16(b, off, 1, le);
+    }
+}
 
 /// Oracle shared by the DATA harnesses: Ok => fixed part present, payload and every decoded
 /// inline-QoS parameter (count and first value) bounded by the input length.
@@ -262,61 +356,108 @@ fn check_data(h: &SubmessageHeaderRead, body: &[u8]) -> Result<DataSubmessage, (
 }
 
 // @check props=C07 tier=quick
-// @desc DataSubmessage::try_from_bytes, inline-QoS flag clear: arbitrary other flags, arbitrary submessage_length (incl. 0 = to end of buffer), arbitrary octetsToInlineQos (payload may start anywhere) + arbitrary body: Ok or Err, no panic; payload size bounded by the body length
-// @bounds body 28 symbolic bytes (20 fixed + 8 payload), symbolic length; loop-free (unwind 6)
-// @assume header flag bit 1 (inline QoS) is 0 — the flag-set half is c07_data_inline_qos
+// @desc DataSubmessage::try_from_bytes, inline-QoS flag clear, for 2 flag octets (little-endian with D, big-endian with K): arbitrary submessage_length (incl. 0 = to end of buffer), arbitrary octetsToInlineQos (payload may start anywhere) + arbitrary body of arbitrary length: Ok or Err, no panic; payload size bounded by the body length
+// @bounds body 28 symbolic bytes (20 fixed + 8 payload), symbolic length 0..=28; flags octet enumerated concretely: {0b0101, 0b1000} (E, D, K; Q = 0, N and unused bits 0; the other six E/D/K octets: thorough tier); unwind 3 (flag loop; the decoder is loop-free)
 // @enc rtps_messages::submessages::data::DataSubmessage::try_from_bytes
 #[kani::proof]
-#[kani::unwind(6)]
+#[kani::unwind(3)]
 fn c07_data_no_inline_qos() {
-    let h = any_header();
-    kani::assume(!h.flags()[1]);
-    let (bytes, len) = body!(28);
-    let r = check_data(&h, &bytes[..len]);
-    kani::cover!(matches!(&r, Ok(d) if d.serialized_payload().len() == 8), "DATA with an 8-byte payload decodes");
-    kani::cover!(matches!(&r, Ok(d) if d.serialized_payload().len() == 3 && h.submessage_length() == 0), "DATA with submessage_length 0 and a payload not at the standard offset decodes");
-    kani::cover!(r.is_err() && len == 28, "full-length DATA body rejected");
-    core::mem::forget(r);
+    for flags in [0b0101u8, 0b1000] {
+        let h = header_with_flags(flags);
+        let (bytes, len) = body!(28);
+        let r = check_data(&h, &bytes[..len]);
+        if flags == 0b0101 {
+            kani::cover!(matches!(&r, Ok(d) if d.serialized_payload().len() == 8), "little-endian DATA with an 8-byte payload decodes");
+            kani::cover!(r.is_err() && len == 28, "full-length DATA body rejected (octetsToInlineQos / submessage_length beyond the end)");
+        }
+        if flags == 0b1000 {
+            kani::cover!(matches!(&r, Ok(d) if d.serialized_payload().len() == 3 && h.submessage_length() == 0), "big-endian key-only DATA with submessage_length 0 and a non-standard payload offset decodes");
+        }
+        core::mem::forget(r);
+    }
+}
+
+/// Runs the DATA decoder over the family; member i is little-endian iff (i even) != swap, so the
+/// quick harness (swap = false) and the thorough harness (swap = true) together cover both
+/// endiannesses for every member.
+fn data_family(swap: bool) {
+    let mut i = 0usize;
+    for c in &QOS_CASES {
+        let le = (i % 2 == 0) != swap;
+        i += 1;
+        let mut b: [u8; 44] = kani::any();
+        put_u16(&mut b, 2, 16, le);
+        lay_out_qos(&mut b, 20, le, c);
+        let end = 20 + c.end;
+        let r = if le {
+            // submessage_length = exact end; the bytes after it belong to the next submessage
+            let h = header_conc(0b0111, end as u16);
+            check_data(&h, &b[..])
+        } else {
+            // submessage_length = 0: the submessage extends to the end of the buffer
+            let h = header_conc(0b0110, 0);
+            check_data(&h, &b[..end])
+        };
+        match c.payload {
+            Some(p) => {
+                assert!(r.is_ok(), "C07: well-formed DATA with inline QoS rejected");
+                if let Ok(d) = &r {
+                    assert!(d.inline_qos().parameter().len() == c.lengths.len(), "C07: DATA inline-QoS parameter count");
+                    assert!(d.serialized_payload().len() == p, "C07: DATA payload length after inline QoS");
+                    if c.lengths.len() == 2 {
+                        assert!(d.inline_qos().parameter()[1].value() == &b[32..36], "C07: second parameter value bytes");
+                        kani::cover!(d.serialized_payload().as_ref()[3] == 0xAB, "payload bytes after two parameters are the wire bytes");
+                    }
+                }
+            }
+            None => assert!(r.is_err(), "C07: malformed inline QoS accepted"),
+        }
+        core::mem::forget(r);
+    }
 }
 
 // @check props=C07 tier=quick
-// @desc DataSubmessage::try_from_bytes, inline-QoS flag set, octetsToInlineQos = 16 (the standard offset), arbitrary other flags / submessage_length / body: Ok or Err, no panic; parameter count, first parameter value and payload bounded by the body length
-// @bounds body 32 symbolic bytes (20 fixed + 12: one 4-byte parameter + sentinel, or sentinel + payload), symbolic length; unwind 5 (parameter loop <= 3 iterations)
-// @assume header flag bit 1 (inline QoS) is 1 and the octetsToInlineQos field is 16 (arbitrary offsets: thorough tier c07_data_inline_qos_any_offset)
+// @desc DataSubmessage::try_from_bytes, inline-QoS flag set, over the inline-QoS image family (0..3 parameters + sentinel + payload; missing sentinel; length not multiple of 4; length beyond end; truncated value / header; empty region): decodes exactly the well-formed members with the expected parameter count and payload length, rejects the others, never panics
+// @bounds image 44 bytes: fixed part symbolic (ids, extraFlags, writerSN) with octetsToInlineQos = 16, parameter values and payload symbolic; control fields concrete: flags octet (Q,D set; E per member), parameter ids, parameter lengths in {0,3,4,8,0xfffc}, sentinel position, slice end; even members little-endian with submessage_length = exact end and trailing bytes after the submessage, odd members big-endian with submessage_length = 0 (to end of buffer); unwind 14 (13 family members; parameter loop <= 4)
+// @assume control fields of the image are taken from the enumerated family (see QOS_CASES), not arbitrary
 // @enc rtps_messages::submessages::data::DataSubmessage::try_from_bytes
 // @enc rtps_messages::submessage_elements::ParameterList::try_read_from_bytes
+// @enc rtps_messages::submessage_elements::Parameter::try_read_from_bytes
 #[kani::proof]
-#[kani::unwind(5)]
-fn c07_data_inline_qos() {
-    let h = any_header();
-    kani::assume(h.flags()[1]);
-    let (bytes, len) = body!(32);
-    kani::assume(rd_u16(&bytes, 2, h.endianness()) == 16);
-    let r = check_data(&h, &bytes[..len]);
-    kani::cover!(matches!(&r, Ok(d) if d.inline_qos().parameter().len() == 1 && d.inline_qos().parameter()[0].value().len() == 4), "DATA with one 4-byte parameter decodes");
-    kani::cover!(matches!(&r, Ok(d) if d.inline_qos().parameter().len() == 0 && d.serialized_payload().len() > 0), "DATA with an empty parameter list and a payload decodes");
-    kani::cover!(r.is_err() && len == 32, "full-length DATA body rejected");
-    core::mem::forget(r);
+#[kani::unwind(14)]
+fn c07_data_inline_qos_family() {
+    data_family(false);
 }
 
-// @check props=C07 tier=thorough timeout=1500
-// @desc DataSubmessage::try_from_bytes, all flags, arbitrary octetsToInlineQos (the parameter list may start anywhere, also inside the fixed part), arbitrary submessage_length + body: Ok or Err, no panic; parameter count and payload bounded
-// @bounds body 32 symbolic bytes, symbolic length; unwind 9 (parameter loop <= 32/4 iterations)
+// @check props=C07 tier=thorough
+// @desc as c07_data_inline_qos_family with the endianness / submessage_length mode of every member swapped
+// @bounds as c07_data_inline_qos_family; odd members little-endian, even members big-endian
+// @assume control fields of the image are taken from the enumerated family (see QOS_CASES), not arbitrary
 // @enc rtps_messages::submessages::data::DataSubmessage::try_from_bytes
-// @enc rtps_messages::submessage_elements::ParameterList::try_read_from_bytes
 #[kani::proof]
-#[kani::unwind(9)]
-fn c07_data_inline_qos_any_offset() {
-    let h = any_header();
-    let (bytes, len) = body!(32);
-    let r = check_data(&h, &bytes[..len]);
-    kani::cover!(matches!(&r, Ok(d) if d.inline_qos().parameter().len() >= 2), "DATA with two parameters decodes");
-    kani::cover!(r.is_err() && len == 32, "full-length DATA body rejected");
-    core::mem::forget(r);
+#[kani::unwind(14)]
+fn c07_data_inline_qos_family_swapped() {
+    data_family(true);
 }
 
-// ------------------------------------------------------------------------------------------
-// DATA_FRAG
+// @check props=C07 tier=thorough
+// @desc DataSubmessage::try_from_bytes, inline-QoS flag clear, the 6 flag octets over {E, D, K} not covered in the quick tier (incl. D and K both clear: no payload)
+// @bounds as c07_data_no_inline_qos; flags octets {0b0000, 0b0001, 0b0100, 0b1001, 0b1100, 0b1101}; unwind 7
+// @enc rtps_messages::submessages::data::DataSubmessage::try_from_bytes
+#[kani::proof]
+#[kani::unwind(7)]
+fn c07_data_no_inline_qos_other_flags() {
+    for flags in [0b0000u8, 0b0001, 0b0100, 0b1001, 0b1100, 0b1101] {
+        let h = header_with_flags(flags);
+        let (bytes, len) = body!(28);
+        let r = check_data(&h, &bytes[..len]);
+        if flags == 0b0100 {
+            kani::cover!(matches!(&r, Ok(d) if d.serialized_payload().len() == 8), "big-endian DATA with an 8-byte payload decodes");
+        }
+        core::mem::forget(r);
+    }
+}
+
 // ------------------------------------------------------------------------------------------
 
 fn check_data_frag(h: &SubmessageHeaderRead, body: &[u8]) -> Result<DataFragSubmessage, ()> {
@@ -344,56 +485,98 @@ fn check_data_frag(h: &SubmessageHeaderRead, body: &[u8]) -> Result<DataFragSubm
 }
 
 // @check props=C07 tier=quick
-// @desc DataFragSubmessage::try_from_bytes, inline-QoS flag clear: arbitrary other flags, submessage_length (incl. 0 and values shorter than the fixed part), octetsToInlineQos, fragment fields + body: Ok or Err, no panic; payload bounded by the body length
-// @bounds body 40 symbolic bytes (32 fixed + 8 payload), symbolic length; loop-free (unwind 6)
-// @assume header flag bit 1 (inline QoS) is 0 — the flag-set half is c07_datafrag_inline_qos
+// @desc DataFragSubmessage::try_from_bytes, inline-QoS flag clear, for 2 flag octets (little-endian without K, big-endian with K): arbitrary submessage_length (incl. 0 and values shorter than the fixed part), octetsToInlineQos, fragment fields + arbitrary body of arbitrary length: Ok or Err, no panic; payload bounded by the body length
+// @bounds body 40 symbolic bytes (32 fixed + 8 payload), symbolic length 0..=40; flags octet enumerated concretely: {0b0001, 0b0100} (E, K; Q = 0, N and unused bits 0; the other two: thorough tier); unwind 3
 // @enc rtps_messages::submessages::data_frag::DataFragSubmessage::try_from_bytes
 #[kani::proof]
-#[kani::unwind(6)]
+#[kani::unwind(3)]
 fn c07_datafrag_no_inline_qos() {
-    let h = any_header();
-    kani::assume(!h.flags()[1]);
-    let (bytes, len) = body!(40);
-    let r = check_data_frag(&h, &bytes[..len]);
-    kani::cover!(matches!(&r, Ok(d) if d.serialized_payload().as_ref().len() == 8), "DATA_FRAG with an 8-byte payload decodes");
-    kani::cover!(matches!(&r, Ok(d) if d.fragment_size() == 0 && d.fragments_in_submessage() == 0), "DATA_FRAG with fragment size 0 decodes (the decoder does not validate fragment fields)");
-    kani::cover!(r.is_err() && len == 40, "full-length DATA_FRAG body rejected");
-    core::mem::forget(r);
+    for flags in [0b0001u8, 0b0100] {
+        let h = header_with_flags(flags);
+        let (bytes, len) = body!(40);
+        let r = check_data_frag(&h, &bytes[..len]);
+        if flags == 0b0001 {
+            kani::cover!(matches!(&r, Ok(d) if d.serialized_payload().as_ref().len() == 8), "DATA_FRAG with an 8-byte payload decodes");
+            kani::cover!(matches!(&r, Ok(d) if d.fragment_size() == 0 && d.fragments_in_submessage() == 0), "DATA_FRAG with fragment size 0 decodes (the decoder does not validate fragment fields)");
+            kani::cover!(r.is_err() && len == 40, "full-length DATA_FRAG body rejected");
+        }
+        if flags == 0b0100 {
+            kani::cover!(matches!(&r, Ok(d) if h.submessage_length() == 8 && d.serialized_payload().as_ref().len() == 4), "big-endian DATA_FRAG whose submessage_length ends inside the fixed part decodes with a payload taken from the fixed part");
+        }
+        core::mem::forget(r);
+    }
+}
+
+// @check props=C07 tier=thorough
+// @desc DataFragSubmessage::try_from_bytes, inline-QoS flag clear, the 2 flag octets over {E, K} not covered in the quick tier
+// @bounds as c07_datafrag_no_inline_qos; flags octets {0b0000, 0b0101}
+// @enc rtps_messages::submessages::data_frag::DataFragSubmessage::try_from_bytes
+#[kani::proof]
+#[kani::unwind(3)]
+fn c07_datafrag_no_inline_qos_other_flags() {
+    for flags in [0b0000u8, 0b0101] {
+        let h = header_with_flags(flags);
+        let (bytes, len) = body!(40);
+        let r = check_data_frag(&h, &bytes[..len]);
+        if flags == 0b0101 {
+            kani::cover!(matches!(&r, Ok(d) if d.serialized_payload().as_ref().len() == 8), "little-endian keyed DATA_FRAG with an 8-byte payload decodes");
+        }
+        core::mem::forget(r);
+    }
+}
+
+fn datafrag_family(swap: bool) {
+    let mut i = 0usize;
+    for c in &QOS_CASES {
+        let le = (i % 2 == 1) != swap;
+        i += 1;
+        let mut b: [u8; 56] = kani::any();
+        put_u16(&mut b, 2, 28, le);
+        lay_out_qos(&mut b, 32, le, c);
+        let end = 32 + c.end;
+        let r = if le {
+            let h = header_conc(0b0011, end as u16);
+            check_data_frag(&h, &b[..])
+        } else {
+            let h = header_conc(0b0010, 0);
+            check_data_frag(&h, &b[..end])
+        };
+        match c.payload {
+            Some(p) => {
+                assert!(r.is_ok(), "C07: well-formed DATA_FRAG with inline QoS rejected");
+                if let Ok(d) = &r {
+                    assert!(d.inline_qos().parameter().len() == c.lengths.len(), "C07: DATA_FRAG inline-QoS parameter count");
+                    assert!(d.serialized_payload().as_ref().len() == p, "C07: DATA_FRAG payload length after inline QoS");
+                    kani::cover!(c.lengths.len() == 3, "DATA_FRAG with three empty parameters decodes");
+                }
+            }
+            None => assert!(r.is_err(), "C07: malformed inline QoS accepted"),
+        }
+        core::mem::forget(r);
+    }
 }
 
 // @check props=C07 tier=quick
-// @desc DataFragSubmessage::try_from_bytes, inline-QoS flag set, octetsToInlineQos = 28 (standard offset), arbitrary other flags / submessage_length / fragment fields / body: Ok or Err, no panic; parameter count, first value and payload bounded
-// @bounds body 44 symbolic bytes (32 fixed + 12), symbolic length; unwind 5 (parameter loop <= 3 iterations)
-// @assume header flag bit 1 (inline QoS) is 1 and octetsToInlineQos field is 28 (arbitrary offsets: thorough tier c07_datafrag_inline_qos_any_offset)
+// @desc DataFragSubmessage::try_from_bytes, inline-QoS flag set, over the same inline-QoS image family: decodes exactly the well-formed members with the expected parameter count and payload length, rejects the others, never panics
+// @bounds image 56 bytes: fixed part symbolic (ids, writerSN, fragment fields) with octetsToInlineQos = 28; odd members little-endian / exact submessage_length, even members big-endian / submessage_length 0; rest as in c07_data_inline_qos_family; unwind 14
+// @assume control fields of the image are taken from the enumerated family (see QOS_CASES), not arbitrary
 // @enc rtps_messages::submessages::data_frag::DataFragSubmessage::try_from_bytes
 // @enc rtps_messages::submessage_elements::ParameterList::try_read_from_bytes
 #[kani::proof]
-#[kani::unwind(5)]
-fn c07_datafrag_inline_qos() {
-    let h = any_header();
-    kani::assume(h.flags()[1]);
-    let (bytes, len) = body!(44);
-    kani::assume(rd_u16(&bytes, 2, h.endianness()) == 28);
-    let r = check_data_frag(&h, &bytes[..len]);
-    kani::cover!(matches!(&r, Ok(d) if d.inline_qos().parameter().len() == 1 && d.inline_qos().parameter()[0].value().len() == 4), "DATA_FRAG with one 4-byte parameter decodes");
-    kani::cover!(matches!(&r, Ok(d) if d.inline_qos().parameter().len() == 0 && d.serialized_payload().as_ref().len() > 0), "DATA_FRAG with an empty parameter list and a payload decodes");
-    kani::cover!(r.is_err() && len == 44, "full-length DATA_FRAG body rejected");
-    core::mem::forget(r);
+#[kani::unwind(14)]
+fn c07_datafrag_inline_qos_family() {
+    datafrag_family(false);
 }
 
-// @check props=C07 tier=thorough timeout=1500
-// @desc DataFragSubmessage::try_from_bytes, all flags, arbitrary octetsToInlineQos / submessage_length / body: Ok or Err, no panic
-// @bounds body 40 symbolic bytes, symbolic length; unwind 11 (parameter loop <= 40/4 iterations)
+// @check props=C07 tier=thorough
+// @desc as c07_datafrag_inline_qos_family with the endianness / submessage_length mode of every member swapped
+// @bounds as c07_datafrag_inline_qos_family, endianness swapped
+// @assume control fields of the image are taken from the enumerated family (see QOS_CASES), not arbitrary
 // @enc rtps_messages::submessages::data_frag::DataFragSubmessage::try_from_bytes
 #[kani::proof]
-#[kani::unwind(11)]
-fn c07_datafrag_inline_qos_any_offset() {
-    let h = any_header();
-    let (bytes, len) = body!(40);
-    let r = check_data_frag(&h, &bytes[..len]);
-    kani::cover!(matches!(&r, Ok(d) if d.inline_qos().parameter().len() >= 1), "DATA_FRAG with a parameter decodes");
-    kani::cover!(r.is_err() && len == 40, "full-length DATA_FRAG body rejected");
-    core::mem::forget(r);
+#[kani::unwind(14)]
+fn c07_datafrag_inline_qos_family_swapped() {
+    datafrag_family(true);
 }
 
 // ------------------------------------------------------------------------------------------
@@ -517,33 +700,82 @@ fn c07_locator_list() {
 }
 
 // @check props=C07 tier=quick
-// @desc ParameterList::try_read_from_bytes (and the private Parameter reader under it) on arbitrary bytes, both endiannesses: Ok implies a sentinel was found, parameter count <= (len-4)/4 and every value length is a multiple of 4; never panics
-// @bounds 20 symbolic bytes, symbolic length; unwind 7 (parameter loop <= 5 iterations)
+// @desc ParameterList::try_read_from_bytes (and the private Parameter reader under it) over the inline-QoS image family (even members little-endian, odd members big-endian): Ok exactly for the well-formed members, with the expected parameter count, value bytes equal to the wire bytes and exactly the list consumed; Err for the others; never panics
+// @bounds image 24 bytes; parameter values (and the sentinel's length field) symbolic; parameter ids, lengths, sentinel position and slice end concrete from the family; unwind 14
+// @assume control fields of the image are taken from the enumerated family (see QOS_CASES), not arbitrary
+// @enc rtps_messages::submessage_elements::ParameterList::try_read_from_bytes
+// @enc rtps_messages::submessage_elements::Parameter::try_read_from_bytes
+#[kani::proof]
+#[kani::unwind(14)]
+fn c07_parameter_list_family() {
+    parameter_list_family(false);
+}
+
+// @check props=C07 tier=thorough
+// @desc as c07_parameter_list_family with the endianness of every member swapped
+// @bounds as c07_parameter_list_family
+// @assume control fields of the image are taken from the enumerated family (see QOS_CASES), not arbitrary
 // @enc rtps_messages::submessage_elements::ParameterList::try_read_from_bytes
 #[kani::proof]
-#[kani::unwind(7)]
-fn c07_parameter_list() {
+#[kani::unwind(14)]
+fn c07_parameter_list_family_swapped() {
+    parameter_list_family(true);
+}
+
+fn parameter_list_family(swap: bool) {
+    let mut i = 0usize;
+    for c in &QOS_CASES {
+        let le = (i % 2 == 0) != swap;
+        i += 1;
+        let mut b: [u8; 24] = kani::any();
+        lay_out_qos(&mut b, 0, le, c);
+        let e = if le { Endianness::LittleEndian } else { Endianness::BigEndian };
+        let mut d = &b[..c.end];
+        let r = ParameterList::try_read_from_bytes(&mut d, &e);
+        match c.payload {
+            Some(p) => {
+                assert!(r.is_ok(), "C07: well-formed parameter list rejected");
+                if let Ok(l) = &r {
+                    assert!(l.parameter().len() == c.lengths.len(), "C07: parameter count");
+                    assert!(d.len() == p, "C07: bytes left after the sentinel");
+                    if c.lengths.len() == 1 && c.lengths[0] == 8 {
+                        assert!(l.parameter()[0].value() == &b[4..12], "C07: parameter value bytes");
+                        kani::cover!(l.parameter()[0].value()[7] == 0x5A, "a parameter with an 8-byte value decodes to the wire bytes");
+                    }
+                }
+            }
+            None => assert!(r.is_err(), "C07: malformed parameter list accepted"),
+        }
+        core::mem::forget(r);
+    }
+}
+
+// @check props=C07 tier=thorough timeout=1500
+// @desc ParameterList::try_read_from_bytes on FULLY symbolic bytes (ids, length fields, slice length all arbitrary), both endiannesses: Ok or Err, no panic; parameter count bounded by the input
+// @bounds 8 symbolic bytes, symbolic length 0..=8 (measured 345 s / 5.4 GB; 12 bytes exceed 10 GB); unwind 4
+// @enc rtps_messages::submessage_elements::ParameterList::try_read_from_bytes
+#[kani::proof]
+#[kani::unwind(4)]
+fn c07_parameter_list_symbolic() {
     let e = any_endianness();
-    let (bytes, len) = body!(20);
+    let (bytes, len) = body!(8);
     let mut d = &bytes[..len];
     let r = ParameterList::try_read_from_bytes(&mut d, &e);
     if let Ok(l) = &r {
-        let n = l.parameter().len();
-        assert!(len >= 4 && 4 * n <= len - 4, "C07: more parameters than the input allows");
-        if n >= 1 {
-            let v = l.parameter()[0].value().len();
-            assert!(v % 4 == 0 && v <= len - 8, "C07: first parameter value length");
-            assert!(l.parameter()[0].parameter_id() != 1, "C07: sentinel stored as a parameter");
-        }
+        assert!(len >= 4 && 4 * l.parameter().len() <= len - 4, "C07: more parameters than the input allows");
     }
-    kani::cover!(matches!(&r, Ok(l) if l.parameter().len() == 2), "two parameters + sentinel decode");
-    kani::cover!(matches!(&r, Ok(l) if l.parameter().len() == 1 && l.parameter()[0].value().len() == 8), "a parameter with an 8-byte value decodes");
-    kani::cover!(r.is_err() && len == 20, "a list without sentinel is rejected");
+    kani::cover!(matches!(&r, Ok(l) if l.parameter().len() == 1), "one empty parameter + sentinel decode");
     core::mem::forget(r);
 }
 
 // ------------------------------------------------------------------------------------------
 // FragmentNumberSet / NACK_FRAG  (KF-C07-1, KF-C07-2)
+//
+// FragmentNumberSet::try_read_from_bytes materialises the members in a Vec::with_capacity(256)
+// (conditional push per bit). With a symbolic bitmap the Vec length is symbolic at every push;
+// measured: numBits <= 4 with a symbolic bitmap word already exceeds 9 GB. The sets are therefore
+// checked with concrete numBits / bitmap patterns (the Vec length then stays concrete), a symbolic
+// base and a symbolic input length.
 // ------------------------------------------------------------------------------------------
 
 /// numBits > 256: the bitmap reader stops after 8 words (`take`), the member loop does not.
@@ -555,118 +787,177 @@ fn fns_trigger_2(base: u32, num_bits: u32) -> bool {
     num_bits >= 1 && num_bits <= 256 && (base as u64) + (num_bits as u64 - 1) > u32::MAX as u64
 }
 
+fn put_u32(b: &mut [u8], at: usize, v: u32, le: bool) {
+    let x = if le { v.to_le_bytes() } else { v.to_be_bytes() };
+    b[at..at + 4].copy_from_slice(&x);
+}
+
 // @check props=C07,C06 tier=quick known=KF-C07-1
-// @desc KNOWN DEFECT: FragmentNumberSet::try_read_from_bytes with numBits > 256 and 8 bitmap words present indexes bitmap[256/32] out of bounds (no numBits <= 256 check, unlike SequenceNumberSet)
-// @bounds 40 symbolic bytes: base arbitrary, numBits arbitrary > 256, bitmap words zero (so that no element is pushed before the out-of-bounds index is reached); unwind 259
-// @assume trigger: numBits > 256, all 8 bitmap words zero, 40 bytes present
+// @desc KNOWN DEFECT: FragmentNumberSet::try_read_from_bytes with numBits > 256 and 8 bitmap words present indexes bitmap[256/32] out of bounds (there is no numBits <= 256 check, unlike SequenceNumberSet); reachable from any NACK_FRAG submessage of >= 56 body bytes
+// @bounds 40 bytes: base symbolic, numBits = 257 (little-endian image) and numBits = u32::MAX (big-endian image), bitmap words zero (no element is pushed before the out-of-bounds index is reached); unwind 259 (member loop reaches delta_n = 256)
+// @assume trigger: numBits > 256, 8 bitmap words present (representatives 257 and 0xffffffff, bitmap zero)
 // @enc rtps_messages::submessage_elements::FragmentNumberSet::try_read_from_bytes
 #[kani::proof]
 #[kani::unwind(259)]
 fn c07_fragment_number_set_numbits__known() {
-    let e = any_endianness();
-    let head: [u8; 8] = kani::any();
-    let mut bytes = [0u8; 40];
-    bytes[..8].copy_from_slice(&head);
-    kani::assume(fns_trigger_1(rd_u32(&bytes, 4, &e)));
-    let mut d = &bytes[..];
-    let r = FragmentNumberSet::try_read_from_bytes(&mut d, &e);
-    kani::cover!(r.is_ok(), "unreachable if the defect is present");
-    core::mem::forget(r);
+    let base: u32 = kani::any();
+    for (le, nb) in [(true, 257u32), (false, u32::MAX)] {
+        let mut bytes = [0u8; 40];
+        put_u32(&mut bytes, 0, base, le);
+        put_u32(&mut bytes, 4, nb, le);
+        assert!(fns_trigger_1(nb));
+        let e = if le { Endianness::LittleEndian } else { Endianness::BigEndian };
+        let mut d = &bytes[..];
+        let r = FragmentNumberSet::try_read_from_bytes(&mut d, &e);
+        core::mem::forget(r);
+    }
 }
 
 // @check props=C07,C06 tier=quick known=KF-C07-2
-// @desc KNOWN DEFECT (builds with overflow checks): FragmentNumberSet::try_read_from_bytes computes `base + delta_n as u32` for every set bit; with bitmapBase close to u32::MAX the addition overflows
-// @bounds 16 symbolic bytes (base, numBits <= 32, one bitmap word), unwind 35
-// @assume trigger: 1 <= numBits <= 32 and base + numBits - 1 > u32::MAX
+// @desc KNOWN DEFECT (builds with overflow checks, e.g. debug): FragmentNumberSet::try_read_from_bytes computes `base + delta_n as u32` for every set bit; with bitmapBase close to u32::MAX the addition overflows and panics
+// @bounds 12 bytes: base symbolic in [u32::MAX - 1, u32::MAX], numBits = 3, bitmap word 0xe0000000 (all three bits set), little- and big-endian image; unwind 5
+// @assume trigger: 1 <= numBits <= 256, base + numBits - 1 > u32::MAX and the overflowing bit is set (representative numBits = 3, all bits set)
 // @enc rtps_messages::submessage_elements::FragmentNumberSet::try_read_from_bytes
 #[kani::proof]
-#[kani::unwind(35)]
+#[kani::unwind(5)]
 fn c07_fragment_number_set_base_overflow__known() {
-    let e = any_endianness();
-    let bytes: [u8; 16] = kani::any();
-    let base = rd_u32(&bytes, 0, &e);
-    let nb = rd_u32(&bytes, 4, &e);
-    kani::assume(nb <= 32 && fns_trigger_2(base, nb));
-    let mut d = &bytes[..];
-    let r = FragmentNumberSet::try_read_from_bytes(&mut d, &e);
-    kani::cover!(r.is_ok(), "inputs in the trigger region whose overflowing bit is clear still decode");
-    core::mem::forget(r);
+    let base: u32 = kani::any();
+    kani::assume(fns_trigger_2(base, 3));
+    for le in [true, false] {
+        let mut bytes = [0u8; 12];
+        put_u32(&mut bytes, 0, base, le);
+        put_u32(&mut bytes, 4, 3, le);
+        put_u32(&mut bytes, 8, 0xe000_0000, le);
+        let e = if le { Endianness::LittleEndian } else { Endianness::BigEndian };
+        let mut d = &bytes[..];
+        let r = FragmentNumberSet::try_read_from_bytes(&mut d, &e);
+        core::mem::forget(r);
+    }
+}
+
+/// (numBits, bitmap word pattern): control concrete, so the member Vec length stays concrete.
+const FNS_CASES: [(u32, u32); 9] = [
+    (0, 0),
+    (1, 0x8000_0000),
+    (4, 0xa000_0000),
+    (32, 0xffff_ffff),
+    (33, 0xaaaa_aaaa),
+    (64, 0x8000_0001),
+    (255, 0x0000_0000),
+    (256, 0xffff_ffff),
+    (256, 0x0000_0001),
+];
+
+/// FragmentNumberSet image at `at` in `b`: symbolic base (not in trigger 2), concrete numBits / bitmap.
+fn lay_out_fns(b: &mut [u8], at: usize, le: bool, nb: u32, pat: u32) -> (u32, usize) {
+    let base: u32 = kani::any();
+    kani::assume(!fns_trigger_2(base, nb));
+    put_u32(b, at, base, le);
+    put_u32(b, at + 4, nb, le);
+    let words = ((nb + 31) / 32) as usize;
+    let mut w = 0;
+    while w < words {
+        put_u32(b, at + 8 + 4 * w, pat, le);
+        w += 1;
+    }
+    (base, words)
+}
+
+fn fns_family(from: usize, to: usize) {
+    let mut i = 0usize;
+    for (nb, pat) in FNS_CASES {
+        i += 1;
+        if i <= from || i > to {
+            continue;
+        }
+        let le = i % 2 == 0;
+        let mut bytes: [u8; 40] = kani::any();
+        let (base, words) = lay_out_fns(&mut bytes, 0, le, nb, pat);
+        let e = if le { Endianness::LittleEndian } else { Endianness::BigEndian };
+        let mut d = &bytes[..];
+        let r = FragmentNumberSet::try_read_from_bytes(&mut d, &e);
+        assert!(r.is_ok(), "C07: well-formed FragmentNumberSet rejected");
+        if let Ok(s) = &r {
+            assert!(s.base() == base, "C07: FragmentNumberSet base");
+            assert!(d.len() == 40 - 8 - 4 * words, "C07: FragmentNumberSet consumed a wrong number of bytes");
+        }
+        kani::cover!(r.is_ok() && nb >= 64 && base > 0x8000_0000, "a wide set with a large base decodes");
+        core::mem::forget(r);
+    }
 }
 
 // @check props=C07 tier=quick
-// @desc FragmentNumberSet::try_read_from_bytes outside the two recorded triggers: arbitrary bytes, both endiannesses: Ok or Err, no panic; Ok implies 8 + 4*ceil(numBits/32) bytes consumed
-// @bounds 16 symbolic bytes, symbolic length, numBits <= 32 whenever 8 bytes are present (one bitmap word; member loops <= 32 iterations, unwind 35); larger numBits: thorough tier
-// @assume NOT trigger KF-C07-1 (numBits > 256) and NOT trigger KF-C07-2 (base + numBits - 1 > u32::MAX); numBits <= 32
+// @desc FragmentNumberSet::try_read_from_bytes outside the two recorded triggers: numBits 0 / 1 / 4 / 32 / 33 / 64 with concrete bitmap patterns, symbolic base (not overflowing): decodes, base preserved, exact consumption, no panic
+// @bounds members 1..6 of FNS_CASES in a 40-byte buffer; base any u32 with base + numBits - 1 <= u32::MAX; trailing bytes symbolic; endianness alternating; unwind 66 (member loops <= 64)
+// @assume NOT trigger KF-C07-1 (numBits > 256), NOT trigger KF-C07-2 (base + numBits - 1 > u32::MAX); numBits and bitmap pattern concrete from FNS_CASES (a symbolic bitmap makes the length of the member Vec symbolic at every push: 4 bits already exceed 9 GB)
 // @enc rtps_messages::submessage_elements::FragmentNumberSet::try_read_from_bytes
 // @enc rtps_messages::submessage_elements::FragmentNumberSet::new
 #[kani::proof]
-#[kani::unwind(35)]
-fn c07_fragment_number_set__rest() {
-    let e = any_endianness();
-    let (bytes, len) = body!(16);
-    if len >= 8 {
-        let base = rd_u32(&bytes, 0, &e);
-        let nb = rd_u32(&bytes, 4, &e);
-        kani::assume(!fns_trigger_1(nb) && !fns_trigger_2(base, nb));
-        kani::assume(nb <= 32);
-    }
-    let mut d = &bytes[..len];
-    let r = FragmentNumberSet::try_read_from_bytes(&mut d, &e);
-    if let Ok(s) = &r {
-        let nb = rd_u32(&bytes, 4, &e);
-        assert!(len - d.len() == 8 + 4 * (((nb + 31) / 32) as usize), "C07: FragmentNumberSet consumed a wrong number of bytes");
-        assert!(s.base() == rd_u32(&bytes, 0, &e), "C07: FragmentNumberSet base");
-    }
-    kani::cover!(r.is_ok() && len == 12 && rd_u32(&bytes, 4, &e) == 32, "a set with 32 bits decodes");
-    kani::cover!(r.is_err() && len == 11, "a set with a truncated bitmap word is rejected");
-    core::mem::forget(r);
+#[kani::unwind(66)]
+fn c07_fragment_number_set_family__rest() {
+    fns_family(0, 6);
 }
 
 // @check props=C07 tier=thorough timeout=1500
-// @desc FragmentNumberSet::try_read_from_bytes outside the two recorded triggers with up to 3 bitmap words
-// @bounds 20 symbolic bytes, symbolic length, numBits <= 96 (unwind 99)
-// @assume NOT trigger KF-C07-1 and NOT trigger KF-C07-2; numBits <= 96
+// @desc FragmentNumberSet::try_read_from_bytes outside the recorded triggers for the widest sets: numBits 255 / 256 with concrete bitmap patterns (empty, all ones, sparse), symbolic base
+// @bounds members 7..9 of FNS_CASES; unwind 258
+// @assume NOT trigger KF-C07-1, NOT trigger KF-C07-2; numBits and bitmap pattern concrete from FNS_CASES
 // @enc rtps_messages::submessage_elements::FragmentNumberSet::try_read_from_bytes
 #[kani::proof]
-#[kani::unwind(99)]
-fn c07_fragment_number_set_wide__rest() {
-    let e = any_endianness();
-    let (bytes, len) = body!(20);
-    if len >= 8 {
-        let base = rd_u32(&bytes, 0, &e);
-        let nb = rd_u32(&bytes, 4, &e);
-        kani::assume(!fns_trigger_1(nb) && !fns_trigger_2(base, nb));
-        kani::assume(nb <= 96);
-    }
-    let mut d = &bytes[..len];
-    let r = FragmentNumberSet::try_read_from_bytes(&mut d, &e);
-    kani::cover!(r.is_ok() && len == 20 && rd_u32(&bytes, 4, &e) == 96, "a set with 96 bits decodes");
-    core::mem::forget(r);
+#[kani::unwind(258)]
+fn c07_fragment_number_set_widest__rest() {
+    fns_family(6, 9);
 }
 
 // @check props=C07 tier=quick
-// @desc NackFragSubmessage::try_from_bytes outside the two recorded FragmentNumberSet triggers: arbitrary header + body: Ok or Err, no panic; Ok only if the fixed part is present
-// @bounds body 32 symbolic bytes (ids 8, writerSN 8, base 4, numBits 4, one bitmap word, count), symbolic length, numBits <= 32 (unwind 35)
-// @assume NOT trigger KF-C07-1 and NOT trigger KF-C07-2; numBits <= 32
+// @desc FragmentNumberSet::try_read_from_bytes on truncated input (outside the recorded triggers): numBits 0 and 33 with an all-zero bitmap, symbolic base, SYMBOLIC input length: decodes iff base, numBits and ceil(numBits/32) bitmap words are present; no panic
+// @bounds 16-byte buffer, symbolic length 0..=16, both endiannesses (numBits 0 little-endian, 33 big-endian); unwind 35
+// @assume NOT trigger KF-C07-1, NOT trigger KF-C07-2; numBits in {0, 33}, bitmap zero
+// @enc rtps_messages::submessage_elements::FragmentNumberSet::try_read_from_bytes
+#[kani::proof]
+#[kani::unwind(35)]
+fn c07_fragment_number_set_truncated__rest() {
+    for (le, nb) in [(true, 0u32), (false, 33)] {
+        let mut bytes = [0u8; 16];
+        let (_base, words) = lay_out_fns(&mut bytes, 0, le, nb, 0);
+        let len: usize = kani::any();
+        kani::assume(len <= 16);
+        let e = if le { Endianness::LittleEndian } else { Endianness::BigEndian };
+        let mut d = &bytes[..len];
+        let r = FragmentNumberSet::try_read_from_bytes(&mut d, &e);
+        assert!(r.is_ok() == (len >= 8 + 4 * words), "C07: FragmentNumberSet decodes iff base, numBits and the bitmap words are present");
+        kani::cover!(r.is_err() && nb == 33 && len == 15, "a set with a truncated second bitmap word is rejected");
+        kani::cover!(r.is_ok() && nb == 0 && len == 8, "an empty set decodes from exactly 8 bytes");
+        core::mem::forget(r);
+    }
+}
+
+// @check props=C07 tier=quick
+// @desc NackFragSubmessage::try_from_bytes outside the two recorded FragmentNumberSet triggers: symbolic ids / writerSN / count / base, FragmentNumberSet control fields from the family (numBits 0, 4, 33): decodes with the wire base; with numBits 0 and a SYMBOLIC body length: decodes iff 28 bytes are present; no panic
+// @bounds body 36 bytes (ids 8, writerSN 8, set 8 + <= 8, count 4 + trailing); members 1, 3, 5 of FNS_CASES; endianness alternating (flags octet concrete 0/1, submessage id and length symbolic); unwind 35
+// @assume NOT trigger KF-C07-1, NOT trigger KF-C07-2; numBits and bitmap pattern concrete from FNS_CASES
 // @enc rtps_messages::submessages::nack_frag::NackFragSubmessage::try_from_bytes
 #[kani::proof]
 #[kani::unwind(35)]
-fn c07_nack_frag__rest() {
-    let h = any_header();
-    let (bytes, len) = body!(32);
-    if len >= 24 {
-        let base = rd_u32(&bytes, 16, h.endianness());
-        let nb = rd_u32(&bytes, 20, h.endianness());
-        kani::assume(!fns_trigger_1(nb) && !fns_trigger_2(base, nb));
-        kani::assume(nb <= 32);
+fn c07_nack_frag_family__rest() {
+    let mut i = 0usize;
+    for (nb, pat) in [FNS_CASES[0], FNS_CASES[2], FNS_CASES[4]] {
+        i += 1;
+        let le = i % 2 == 1;
+        let mut bytes: [u8; 36] = kani::any();
+        let (base, words) = lay_out_fns(&mut bytes, 16, le, nb, pat);
+        let h = header_with_flags(if le { 1 } else { 0 });
+        let len: usize = if nb == 0 { kani::any() } else { 36 };
+        kani::assume(len <= 36);
+        let r = NackFragSubmessage::try_from_bytes(&h, &bytes[..len]);
+        assert!(r.is_ok() == (len >= 28 + 4 * words), "C07: NACK_FRAG decodes iff its whole body is present");
+        if let Ok(m) = &r {
+            assert!(m.fragment_number_state().base() == base, "C07: NACK_FRAG set base");
+        }
+        kani::cover!(r.is_ok() && nb == 33, "a NACK_FRAG with two bitmap words decodes");
+        kani::cover!(r.is_err() && len == 27, "a NACK_FRAG without count is rejected");
+        core::mem::forget(r);
     }
-    let r = NackFragSubmessage::try_from_bytes(&h, &bytes[..len]);
-    if r.is_ok() {
-        assert!(len >= 28, "C07: NACK_FRAG decoded from fewer bytes than its fixed part");
-    }
-    kani::cover!(r.is_ok() && len == 32, "a NACK_FRAG with one bitmap word decodes");
-    kani::cover!(r.is_err() && len == 32, "a full-length NACK_FRAG body is rejected");
-    core::mem::forget(r);
 }
 
 // ------------------------------------------------------------------------------------------
@@ -682,7 +973,7 @@ fn any_cdr_endianness() -> CdrEndianness {
 }
 
 // @check props=C07 tier=quick
-// @desc CdrDeserialize primitives (u8, bool, i16, u16, i32, u32, [u8;2], [u8;3], [u8;16], Locator, ProtocolVersion, Duration, EntityId, BuiltinEndpointSet, BuiltinEndpointQos) on arbitrary bytes, both endiannesses, also after a 1-byte read so that the alignment padding path runs: Ok iff enough bytes, never panics
+// @desc CdrDeserialize primitives (u8, bool, i16, u16, i32, u32, [u8;2], [u8;3], [u8;16], Locator, ProtocolVersion, Duration, EntityId, BuiltinEndpointSet, BuiltinEndpointQos) on arbitrary bytes, both endiannesses, also in sequence after a 1-byte read so that the alignment padding path runs: Ok iff enough bytes, never panics
 // @bounds 28 symbolic bytes, symbolic length; loop-free (unwind 4)
 // @enc dcps::data_representation_builtin_endpoints::rtps_data_representation::CdrDeserialize::cdr_deserialize
 // @enc dcps::data_representation_builtin_endpoints::rtps_data_representation::CdrDeserializer::seek_padding
@@ -721,43 +1012,43 @@ fn c07_cdr_primitives() {
         };
         assert!(v == want, "C07: CDR u16 value");
     }
-    // alignment: one octet, then a u32 (3 padding bytes), then a u16 (aligned), then an octet, then a u16 (1 padding byte)
+    // alignment: one octet, then a u32 (3 padding bytes), then a u16 (aligned), then an octet,
+    // then a u16 (1 padding byte); a failed read does not advance the position
     let mut de = CdrDeserializer::new(d, e);
     let a = u8::cdr_deserialize(&mut de);
     let b = u32::cdr_deserialize(&mut de);
-    let c = u16::cdr_deserialize(&mut de);
-    let f = u8::cdr_deserialize(&mut de);
-    let g = u16::cdr_deserialize(&mut de);
     assert!(a.is_ok() == (len >= 1), "C07: octet");
     assert!(b.is_ok() == (len >= 8), "C07: u32 after an octet needs 3 padding bytes + 4");
+    let mut g_ok = false;
     if b.is_ok() {
-        assert!(c.is_ok() == (len >= 10) && f.is_ok() == (len >= 11) && g.is_ok() == (len >= 14), "C07: aligned reads after padding");
+        let c = u16::cdr_deserialize(&mut de);
+        assert!(c.is_ok() == (len >= 10), "C07: aligned u16 after padding");
+        if c.is_ok() {
+            let f = u8::cdr_deserialize(&mut de);
+            assert!(f.is_ok() == (len >= 11), "C07: octet after u16");
+            if f.is_ok() {
+                let g = u16::cdr_deserialize(&mut de);
+                assert!(g.is_ok() == (len >= 14), "C07: u16 after an octet needs 1 padding byte + 2");
+                g_ok = g.is_ok();
+            }
+        }
     }
     kani::cover!(loc.is_ok(), "a locator decodes");
     kani::cover!(matches!(b, Err(CdrError::NotEnoughData)) && len == 7, "padding + value running past the end is an error");
-    kani::cover!(g.is_ok(), "the whole aligned sequence decodes");
-}
-
-/// Parameter list image with the 4-byte representation header forced to a supported value
-/// (PL_CDR_BE / PL_CDR_LE) half of the time, arbitrary otherwise.
-fn pl_bytes<const N: usize>() -> ([u8; N], usize) {
-    let bytes: [u8; N] = kani::any();
-    let len: usize = kani::any();
-    kani::assume(len <= N);
-    (bytes, len)
+    kani::cover!(g_ok, "the whole aligned sequence decodes");
 }
 
 // @check props=C07 tier=quick
-// @desc discovery ParameterList::new + get_optional_parameter / get_non_optional_parameter (PidIterator, seek_to_pid, endianness) for the scalar value types on arbitrary bytes and an arbitrary pid: Ok or Err, no panic; a value is only returned when the list has a supported representation header
-// @bounds 20 symbolic bytes (header + up to 4 parameters), symbolic length, symbolic pid; unwind 7 (PidIterator <= 5 items)
+// @desc discovery ParameterList::new + get_optional_parameter / get_non_optional_parameter (PidIterator, seek_to_pid, endianness) on arbitrary bytes and an arbitrary pid: Ok or Err, no panic; a value is only returned when the list has a supported representation header
+// @bounds 16 symbolic bytes (representation header + up to 3 parameters), symbolic length, symbolic pid; value types i32 (optional), [u8;2] (non-optional), Duration (optional); unwind 6 (PidIterator <= 4 items)
 // @enc dcps::data_representation_builtin_endpoints::rtps_data_representation::ParameterList::new
 // @enc dcps::data_representation_builtin_endpoints::rtps_data_representation::ParameterList::get_optional_parameter
 // @enc dcps::data_representation_builtin_endpoints::rtps_data_representation::ParameterList::get_non_optional_parameter
 // @enc dcps::data_representation_builtin_endpoints::rtps_data_representation::PidIterator::next
 #[kani::proof]
-#[kani::unwind(7)]
+#[kani::unwind(6)]
 fn c07_discovery_parameter_scalars() {
-    let (bytes, len) = pl_bytes::<20>();
+    let (bytes, len) = body!(16);
     let pid: i16 = kani::any();
     match DiscoveryParameterList::new(&bytes[..len]) {
         Err(_) => {
@@ -768,12 +1059,9 @@ fn c07_discovery_parameter_scalars() {
             let supported = bytes[1] == 2 || bytes[1] == 3;
             let a = pl.get_optional_parameter::<i32>(pid, 7);
             let b = pl.get_non_optional_parameter::<[u8; 2]>(pid);
-            let c = pl.get_optional_parameter::<bool>(pid, false);
             let d = pl.get_optional_parameter::<Duration>(pid, Duration { sec: 0, nanosec: 0 });
-            let f = pl.get_non_optional_parameter::<BuiltinEndpointSet>(pid);
-            let g = pl.get_optional_parameter::<EntityId>(pid, EntityId { entity_key: [0; 3], entity_kind: 0 });
             if !supported {
-                assert!(a.is_err() && b.is_err() && c.is_err() && d.is_err() && f.is_err() && g.is_err(), "C07: value returned from a list with an unsupported representation header");
+                assert!(a.is_err() && b.is_err() && d.is_err(), "C07: value returned from a list with an unsupported representation header");
             }
             kani::cover!(matches!(a, Ok(v) if v != 7) && bytes[1] == 2, "a big-endian i32 parameter is found and decoded");
             kani::cover!(matches!(a, Ok(7)) && matches!(b, Err(CdrError::PidNotFound(_))), "pid not found: default / PidNotFound");
@@ -783,14 +1071,14 @@ fn c07_discovery_parameter_scalars() {
     }
 }
 
-// @check props=C07 tier=quick
-// @desc discovery ParameterList::get_locator_list on arbitrary bytes, arbitrary pid: Ok or Err, no panic; the number of returned locators is bounded by (len - 4) / 28
-// @bounds 36 symbolic bytes (header + one 24-byte locator parameter + 4), symbolic length; unwind 10 (PidIterator <= 9 items)
+// @check props=C07 tier=thorough timeout=1500
+// @desc discovery ParameterList::get_locator_list on arbitrary bytes, arbitrary pid: Ok or Err, no panic; the number of returned locators is bounded by len / 28 (every returned locator consumed a 4-byte parameter header and 24 value bytes)
+// @bounds 32 symbolic bytes (representation header + one 24-byte locator parameter), symbolic length 4..=32; unwind 9 (PidIterator <= 8 items)
 // @enc dcps::data_representation_builtin_endpoints::rtps_data_representation::ParameterList::get_locator_list
 #[kani::proof]
-#[kani::unwind(10)]
+#[kani::unwind(9)]
 fn c07_discovery_locator_list() {
-    let (bytes, len) = pl_bytes::<36>();
+    let (bytes, len) = body!(32);
     kani::assume(len >= 4);
     let pid: i16 = kani::any();
     let pl = match DiscoveryParameterList::new(&bytes[..len]) {
@@ -802,7 +1090,7 @@ fn c07_discovery_locator_list() {
     };
     let r = pl.get_locator_list(pid);
     if let Ok(l) = &r {
-        assert!(28 * l.len() + 4 <= len, "C07: more locators than the input allows");
+        assert!(28 * l.len() <= len, "C07: more locators than the input allows");
     }
     kani::cover!(matches!(&r, Ok(l) if l.len() == 1), "one locator parameter is found and decoded");
     kani::cover!(matches!(&r, Ok(l) if l.is_empty()), "no parameter with that pid");
@@ -810,55 +1098,77 @@ fn c07_discovery_locator_list() {
     core::mem::forget(r);
 }
 
+/// Discovery parameter list image: representation header PL_CDR_LE / PL_CDR_BE, one parameter
+/// `pid` with a `vlen`-byte value whose first 4 bytes are the CDR string length `slen`, sentinel.
+fn string_parameter_image(le: bool, pid: i16, vlen: u16, slen: u32) -> [u8; 20] {
+    let mut b: [u8; 20] = kani::any();
+    b[0] = 0;
+    b[1] = if le { 3 } else { 2 };
+    b[2] = 0;
+    b[3] = 0;
+    put_u16(&mut b, 4, pid as u16, le);
+    put_u16(&mut b, 6, vlen, le);
+    put_u32(&mut b, 8, slen, le);
+    let s = 8 + vlen as usize;
+    if s + 4 <= 20 {
+        put_u16(&mut b, s, 1, le);
+        put_u16(&mut b, s + 2, 0, le);
+    }
+    b
+}
+
+const PID_DOMAIN_TAG: i16 = 0x4014;
+
+/// Stub for the standard library's UTF-8 validation (its loops over a symbolic-length buffer are
+/// what makes the String decoder intractable; std's validator itself is trusted, not checked).
+fn utf8_accept_all(_v: &[u8]) -> Result<&str, core::str::Utf8Error> {
+    Ok("")
+}
+
 // @check props=C07,C06 tier=quick known=KF-C07-3
-// @desc KNOWN DEFECT: a string-valued discovery parameter (PID_DOMAIN_TAG of SPDP participant data is read with get_optional_parameter::<String>) whose CDR length field is 0 makes String::cdr_deserialize compute `length as usize - 1`
-// @bounds 16 bytes: representation header PL_CDR_LE or PL_CDR_BE (symbolic), parameter header (pid symbolic, length 4), CDR string length 0, sentinel; unwind 6
+// @desc KNOWN DEFECT: a string-valued discovery parameter whose CDR length field is 0 makes String::cdr_deserialize compute `length as usize - 1` (PID_DOMAIN_TAG of SPDP participant data is read with get_optional_parameter::<String>)
+// @bounds 20-byte parameter list image, both representation headers (PL_CDR_LE, PL_CDR_BE): PID_DOMAIN_TAG, value length 4, CDR string length 0, sentinel; unwind 6
 // @assume trigger: the parameter found for the requested pid has >= 4 value bytes and its CDR string length field is 0
+// @assume stub: core::str::from_utf8 replaced by a function accepting every byte string (std's UTF-8 validator is trusted, not checked; its loops over a symbolic-length buffer are intractable)
 // @enc dcps::data_representation_builtin_endpoints::rtps_data_representation::ParameterList::get_optional_parameter
 // @enc dcps::data_representation_builtin_endpoints::rtps_data_representation::String::cdr_deserialize
 #[kani::proof]
 #[kani::unwind(6)]
+#[kani::stub(core::str::from_utf8, utf8_accept_all)]
 fn c07_discovery_string_zero_length__known() {
-    let le: bool = kani::any();
-    let pid: i16 = kani::any();
-    kani::assume(pid != 1 && pid != if le { 0x0300 } else { 0x0002 });
-    let p = if le { pid.to_le_bytes() } else { pid.to_be_bytes() };
-    let l = if le { 4u16.to_le_bytes() } else { 4u16.to_be_bytes() };
-    let bytes: [u8; 16] = [
-        0, if le { 3 } else { 2 }, 0, 0, // representation header
-        p[0], p[1], l[0], l[1], // pid, length 4
-        0, 0, 0, 0, // CDR string length 0
-        if le { 1 } else { 0 }, if le { 0 } else { 1 }, 0, 0, // sentinel
-    ];
-    let pl = match DiscoveryParameterList::new(&bytes[..]) {
-        Ok(pl) => pl,
-        Err(_) => return,
-    };
-    let r = pl.get_optional_parameter::<String>(pid, String::new());
-    kani::cover!(r.is_ok(), "unreachable if the defect is present");
-    core::mem::forget(r);
+    for le in [true, false] {
+        let bytes = string_parameter_image(le, PID_DOMAIN_TAG, 4, 0);
+        if let Ok(pl) = DiscoveryParameterList::new(&bytes[..16]) {
+            let r = pl.get_optional_parameter::<String>(PID_DOMAIN_TAG, String::new());
+            core::mem::forget(r);
+        }
+    }
 }
 
 // @check props=C07 tier=quick
-// @desc String::cdr_deserialize outside the recorded trigger (length field != 0): arbitrary bytes, both endiannesses, length field any non-zero u32: Ok or Err, no panic; the decoded string is not longer than the input
-// @bounds 10 symbolic bytes (length + up to 5 characters + terminator), symbolic length; unwind 12 (UTF-8 validation <= 6 bytes, byte copies)
-// @assume NOT trigger KF-C07-3: if 4 bytes are present the CDR string length field is not 0
+// @desc String::cdr_deserialize outside the recorded trigger (CDR length != 0): lengths 1 (empty string), 3, 4 (exactly fills the buffer), 5 and 0xffffffff (beyond the buffer): Ok exactly when length + 4 <= buffer, decoded length = CDR length - 1, no panic; character bytes symbolic
+// @bounds 8-byte buffer, character / terminator bytes symbolic, CDR string length and endianness concrete per member (5 lengths, endianness alternating); unwind 6
+// @assume NOT trigger KF-C07-3; CDR string length from {1, 3, 4, 5, 0xffffffff}
+// @assume stub: core::str::from_utf8 replaced by a function accepting every byte string (std's UTF-8 validator is trusted, not checked); the InvalidData branch of the decoder is therefore not exercised
 // @enc dcps::data_representation_builtin_endpoints::rtps_data_representation::String::cdr_deserialize
 #[kani::proof]
-#[kani::unwind(12)]
+#[kani::unwind(6)]
+#[kani::stub(core::str::from_utf8, utf8_accept_all)]
 fn c07_cdr_string__rest() {
-    let e = any_cdr_endianness();
-    let (bytes, len) = body!(10);
-    if len >= 4 {
-        kani::assume(bytes[0] != 0 || bytes[1] != 0 || bytes[2] != 0 || bytes[3] != 0);
+    let mut i = 0;
+    for slen in [1u32, 3, 4, 5, 0xffff_ffff] {
+        i += 1;
+        let le = i % 2 == 0;
+        let mut bytes: [u8; 8] = kani::any();
+        put_u32(&mut bytes, 0, slen, le);
+        let e = if le { CdrEndianness::Little } else { CdrEndianness::Big };
+        let r = String::cdr_deserialize(&mut CdrDeserializer::new(&bytes[..], e));
+        assert!(r.is_ok() == (slen <= 4), "C07: CDR string decodes iff length + 4 <= buffer");
+        if let Ok(s) = &r {
+            assert!(s.len() == slen as usize - 1, "C07: decoded string length");
+            kani::cover!(slen == 3 && s.as_bytes()[0] == b'x', "a 2-character string decodes to the wire bytes");
+        }
+        kani::cover!(r.is_err() && slen == 5, "a CDR length beyond the buffer is an error");
+        core::mem::forget(r);
     }
-    let r = String::cdr_deserialize(&mut CdrDeserializer::new(&bytes[..len], e));
-    if let Ok(s) = &r {
-        assert!(s.len() + 5 <= len, "C07: decoded string longer than the input allows");
-    }
-    kani::cover!(matches!(&r, Ok(s) if s.len() == 3), "a 3-character string decodes");
-    kani::cover!(matches!(&r, Ok(s) if s.is_empty()), "the empty string (length 1) decodes");
-    kani::cover!(matches!(&r, Err(CdrError::InvalidData)), "invalid UTF-8 is an error");
-    kani::cover!(matches!(&r, Err(CdrError::NotEnoughData)) && len == 10, "a length larger than the input is an error");
-    core::mem::forget(r);
 }
